@@ -148,15 +148,20 @@ def parse_printed(text, sections=None):
     return res
 
 
-def judge(ctx, repo, text, case, repos=None):
+def judge(ctx, repo, text, case, repos=None, repo_id=None):
+    """repo_id: the repository is one of several of the collection (it pins components, which are analysed in the
+    same report): its own listing is judged, the printed report is left to C07"""
     ctx.evaluated()
     matching = {cid for cid, c in repo.commits.items() if text in c.message}
     try:
         if repos is None:
             repos = ReposCollection({'r': mg.repo_for('r', repo)})
-        else:
+        elif repo_id is None:
             ctx.count("reports_on_a_reused_collection")
-        (rid, rgraph), = repos.make_reports_data(text)
+        if repo_id is None:
+            (rid, rgraph), = repos.make_reports_data(text)
+        else:
+            rgraph = dict(repos.make_reports_data(text))[repo_id]
     except Exception as err:
         ctx.violation("report-raises", {"type": type(err).__name__, "msg": str(err)[:200]}, case)
         return
@@ -231,12 +236,13 @@ def judge(ctx, repo, text, case, repos=None):
         if e['head'] in e['lower']:
             ctx.count("heads_inside_lower_branch")
     # ---- printed report
+    printed = None
     try:
-        report = repos.make_report(text)
-        printed = str(report.ch_text(no_color=True))
+        if repo_id is None:
+            report = repos.make_report(text)
+            printed = str(report.ch_text(no_color=True))
     except Exception as err:
         problems.append(("report-rendering-raises", {"type": type(err).__name__, "msg": str(err)[:200]}))
-        printed = None
     if printed is not None:
         ctx.count("printed_reports_parsed")
         sections = {}
@@ -278,7 +284,33 @@ def judge(ctx, repo, text, case, repos=None):
         len(c.parents) == 2 and all(any(a in tagged for a in mg.ancestors(p)) for p in c.parents)
         for c in repo.commits.values())
     if any(e['head'] in e['lower'] for e in exp.values()) or merges_of_built or len(order) >= 3:
-        ctx.nontrivial(sig_of([case["repo"], text]))
+        ctx.nontrivial(sig_of([case.get("repo") or case.get("par"), text]))
+
+
+def with_component_case(ctx, rng, case=None):
+    """the repository pins a component that is part of the same collection (the generators of C07): its own
+    matching commits are listed as in a collection of one - whatever the component's builds and their dates are"""
+    from vf.checks import c07
+    if case is None:
+        step = rng.choice([60, 7 * 3600, 2 * 86400, 2 * 86400])
+        comp, versions = c07.gen_comp(rng, step=step)
+        if not versions:
+            return
+        par, pins, _ = c07.gen_parent(rng, versions, None, comp, None, step)
+        times = [c.committed_date for c in par.commits.values()]
+        if max(times) - min(times) > 29 * 86400:
+            ctx.count("parent_history_longer_than_29_days(skipped)")      # (see LEVEL_NOTE)
+            return
+        # (here most parent commits mention the searched text: old ones far below the component's builds too)
+        for cid, c in par.commits.items():
+            if (cid * 7 + len(par.commits)) % 3:
+                c.message = "BUG-7 p%d" % cid
+        case = {"kind": "with-component", "comp": mg.describe(comp), "par": mg.describe(par), "text": "BUG-7"}
+    else:
+        comp, par = mg.rebuild(case["comp"]), mg.rebuild(case["par"])
+    repos = ReposCollection({'par': mg.PRepo('par', par, 'origin'), 'comp': mg.component_repo_for('comp', comp)})
+    ctx.count("repositories_judged_next_to_a_pinned_component")
+    judge(ctx, par, case["text"], case, repos, repo_id='par')
 
 
 def run_shard(ctx):
@@ -287,6 +319,10 @@ def run_shard(ctx):
     for i in range(ctx.cases):
         try:
             rng = ctx.rng(i)
+            if i % 8 == 5:
+                for _ in range(4):
+                    with_component_case(ctx, rng)
+                continue
             repo = gen_history(rng, 25 if ctx.tier == "quick" else rng.choice([12, 25, 40]))
             descr = mg.describe(repo)
             if repo.remote != 'origin':
@@ -343,6 +379,9 @@ def run_shard(ctx):
 
 def replay(ctx, case):
     logging.disable(logging.CRITICAL)
+    if case.get("kind") == "with-component":
+        with_component_case(ctx, None, case)
+        return
     descr = dict(case["repo"])
     late = {t: cid for t, cid in descr["tags"].items() if t in (case.get("late_tags") or [])}
     descr["tags"] = {t: cid for t, cid in descr["tags"].items() if t not in late}
